@@ -22,6 +22,7 @@ int cmd_eval_cache_replay(const Args&);
 int cmd_search_runs(const Args&);
 int cmd_schedules(const Args&);
 int cmd_pool(const Args&);
+int cmd_pool_hist(const Args&);
 int cmd_long_game(const Args&);
 int cmd_uci_session(const Args&);
 }
@@ -56,6 +57,7 @@ int main(int argc, char** argv)
     if (cmd == "search-runs") return vh::cmd_search_runs(a);
     if (cmd == "schedules") return vh::cmd_schedules(a);
     if (cmd == "pool") return vh::cmd_pool(a);
+    if (cmd == "pool-hist") return vh::cmd_pool_hist(a);
     if (cmd == "long-game") return vh::cmd_long_game(a);
     if (cmd == "uci-session") return vh::cmd_uci_session(a);
     return vh_dispatch_extra(cmd, a);
